@@ -1,0 +1,18 @@
+//go:build verif
+
+// Contracts for govc (see /verif/DESIGN.md). Comment-only file: no executable code.
+
+package block
+
+// ---------------------------------------------------------------------------
+// C05 (import / propose time): the proof for the last block is checked against the voters of that block
+// ---------------------------------------------------------------------------
+
+//@ property C05
+//@ func (m *manager) verifyProofForLastBlock(b, votes) (csi, voters, err)
+//@   nosafety
+//@   modifies *
+//@   requires m != nil && b != nil && votes != nil
+//@   ensures [votes_checked] err == nil ==> ghost(vb_ok) && ghost(vb_block) == b && ghost(vb_vals) == blk_voters(b)
+//@   ensures [btp_checked] err == nil ==> ghost(pcm_ok)
+//@   ensures [voters] err == nil ==> voters == blk_voters(b)
